@@ -44,6 +44,10 @@ pub struct Env {
     /// extra command-line arguments of the host process, as a compiler would have them
     #[serde(default)]
     pub args: Vec<String>,
+    /// stdin / stdout / stderr of the process are a terminal (the process runs under `script`, and talks to
+    /// the simulator through files instead)
+    #[serde(default)]
+    pub tty: bool,
 }
 
 impl Env {
@@ -62,6 +66,7 @@ impl Env {
             hostname: None,
             uid: None,
             args: vec![],
+            tty: false,
         }
     }
 }
@@ -213,10 +218,10 @@ pub fn run_child(ctx: &Ctx, env: &Env, sched: &Schedule, durable: &Durable) -> R
         vars.push(("CARGO_MANIFEST_DIR".into(), d.to_string_lossy().to_string()));
         vars.push(("CARGO_MANIFEST_PATH".into(), d.join("Cargo.toml").to_string_lossy().to_string()));
     }
-    let mut cmd = Command::new("env");
-    cmd.arg("-i");
+    use std::os::unix::ffi::{OsStrExt, OsStringExt};
+    // the full command line: env -i K=V .. [taskset ..] [setarch ..] exe session [args]
+    let mut words: Vec<std::ffi::OsString> = vec!["env".into(), "-i".into()];
     for (k, v) in &vars {
-        use std::os::unix::ffi::OsStringExt;
         // U+E9FF in a seeded value stands for the lone byte 0xE9 (not valid UTF-8)
         let mut bytes: Vec<u8> = Vec::new();
         for ch in format!("{k}={v}").chars() {
@@ -227,12 +232,46 @@ pub fn run_child(ctx: &Ctx, env: &Env, sched: &Schedule, durable: &Durable) -> R
                 bytes.extend_from_slice(ch.encode_utf8(&mut b).as_bytes());
             }
         }
-        cmd.arg(std::ffi::OsString::from_vec(bytes));
+        words.push(std::ffi::OsString::from_vec(bytes));
     }
-    cmd.args(&argv);
-    cmd.arg("session");
-    cmd.args(&env.args);
+    words.extend(argv.iter().map(std::ffi::OsString::from));
+    words.push("session".into());
+    let input = serde_json::to_vec(sched).unwrap();
+    let io_id = ctx.counter.fetch_add(1, std::sync::atomic::Ordering::SeqCst);
+    let plan_file = std::path::Path::new(&ctx.tmp_root).join(format!("io-{}-{:010}.plan", std::process::id(), io_id));
+    let obs_file = std::path::Path::new(&ctx.tmp_root).join(format!("io-{}-{:010}.obs", std::process::id(), io_id));
+    if env.tty {
+        std::fs::write(&plan_file, &input).map_err(|e| format!("plan file: {e}"))?;
+        words.extend(["--plan-file".into(), plan_file.clone().into_os_string(), "--obs-file".into(), obs_file.clone().into_os_string()]);
+    }
+    words.extend(env.args.iter().map(std::ffi::OsString::from));
+    let mut cmd = if env.tty {
+        // `script` gives the process a pseudo-terminal for stdin, stdout and stderr
+        let mut line: Vec<u8> = Vec::new();
+        for w in &words {
+            line.push(b'\'');
+            for b in w.as_bytes() {
+                if *b == b'\'' {
+                    line.extend_from_slice(b"'\\''");
+                } else {
+                    line.push(*b);
+                }
+            }
+            line.extend_from_slice(b"' ");
+        }
+        let mut c = Command::new("script");
+        c.arg("-qec").arg(std::ffi::OsString::from_vec(line)).arg("/dev/null");
+        c
+    } else {
+        let mut c = Command::new(&words[0]);
+        c.args(&words[1..]);
+        c
+    };
     cmd.env_clear();
+    if env.tty {
+        cmd.env("PATH", "/usr/bin:/bin");
+        cmd.env("SHELL", "/bin/sh");
+    }
     let cwd = match &env.cwd {
         Some(sub) => {
             let d = durable.path.join(sub);
@@ -242,15 +281,23 @@ pub fn run_child(ctx: &Ctx, env: &Env, sched: &Schedule, durable: &Durable) -> R
         None => durable.path.clone(),
     };
     cmd.current_dir(cwd);
-    cmd.stdin(Stdio::piped()).stdout(Stdio::piped()).stderr(Stdio::piped());
+    cmd.stdin(if env.tty { Stdio::null() } else { Stdio::piped() }).stdout(Stdio::piped()).stderr(Stdio::piped());
     let mut child = cmd.spawn().map_err(|e| format!("spawn: {e}"))?;
-    let input = serde_json::to_vec(sched).unwrap();
-    {
+    if !env.tty {
         let mut stdin = child.stdin.take().unwrap();
         // the child reads all of stdin before writing anything, so this cannot deadlock
         stdin.write_all(&input).map_err(|e| format!("write schedule: {e}"))?;
     }
-    let out = child.wait_with_output().map_err(|e| format!("wait: {e}"))?;
+    let mut out = child.wait_with_output().map_err(|e| format!("wait: {e}"))?;
+    if env.tty {
+        // what the process printed on its terminal (the shim's report) comes back on `script`'s stdout,
+        // with CR LF line ends; the observations come back in the file
+        let term = String::from_utf8_lossy(&out.stdout).replace("\r\n", "\n");
+        out.stderr = term.into_bytes();
+        out.stdout = std::fs::read(&obs_file).unwrap_or_default();
+        let _ = std::fs::remove_file(&plan_file);
+        let _ = std::fs::remove_file(&obs_file);
+    }
     let stderr = String::from_utf8_lossy(&out.stderr).to_string();
     if !out.status.success() {
         return Err(format!("session child failed: {:?}\n{}", out.status, stderr));
@@ -440,6 +487,7 @@ fn gen_env(r: &mut Rng, discovered: &[(String, Vec<String>)]) -> Env {
         } else {
             vec![]
         },
+        tty: r.chance(1, 8),
     }
 }
 
@@ -878,10 +926,17 @@ pub struct Stats {
     pub dim_hostname_uid: u64,
     pub dim_cwd_subdir: u64,
     pub long_processes: u64,
+    pub fault_requests_issued: u64,
+    pub kill_requests_issued: u64,
+    pub dim_tty: u64,
     pub racy_sessions: u64,
     pub sut_threaded_sessions: u64,
     pub seam_threads_surplus: u64,
     pub racy_evidence: Vec<Session>,
+}
+
+fn is_fault_key(k: &Key) -> bool {
+    workload::fault_keys().iter().any(|f| f == k)
 }
 
 fn key_hash(k: &Key) -> u64 {
@@ -967,6 +1022,7 @@ pub fn check_session(ctx: &Ctx, refs: &RefCache, s: &Session, st: &mut Stats, se
         st.dim_cpu_pinned += seg.env.cpus.is_some() as u64;
         st.dim_hostname_uid += (seg.env.hostname.is_some() || seg.env.uid.is_some()) as u64;
         st.dim_cwd_subdir += seg.env.cwd.is_some() as u64;
+        st.dim_tty += seg.env.tty as u64;
         st.long_processes += (seg.sched.requests.len() >= 1000) as u64;
         st.entropy_seeds.insert(seg.env.entropy_seed);
         let layout = fnv(
@@ -981,6 +1037,8 @@ pub fn check_session(ctx: &Ctx, refs: &RefCache, s: &Session, st: &mut Stats, se
         );
         st.layouts.insert(layout);
         let mut hist = fnv(&seg.env.entropy_seed.to_le_bytes());
+        st.fault_requests_issued += seg.sched.requests.iter().filter(|r| r.k < seg.sched.keys.len() && is_fault_key(&seg.sched.keys[r.k])).count() as u64;
+        st.kill_requests_issued += seg.sched.requests.iter().filter(|r| r.mode == Mode::Kill).count() as u64;
         for o in obs.iter() {
             st.requests += 1;
             let key = &seg.sched.keys[o.k];
@@ -1225,6 +1283,9 @@ pub fn minimise(ctx: &Ctx, refs: &RefCache, d: &Divergence, s: &Session, seed: u
     e.args.clear();
     try_env(e, &mut env_min, &mut steps);
     let mut e = env_min.clone();
+    e.tty = false;
+    try_env(e, &mut env_min, &mut steps);
+    let mut e = env_min.clone();
     e.uid = None;
     try_env(e, &mut env_min, &mut steps);
     let mut e = env_min.clone();
@@ -1302,6 +1363,8 @@ fn describe(env: &Env, sched: &Schedule, ec: &str, oc: &str) -> String {
     let n = sched.requests.len();
     let why = if n == 1 && env.entropy_seed != 0 && env.junk.is_empty() {
         "depends on the process's entropy (hash seeds)"
+    } else if n == 1 && env.tty {
+        "depends on whether the compiler's standard streams are a terminal"
     } else if n == 1 && env.host.is_some() {
         "depends on the name of the host executable"
     } else if n == 1 && !env.files.is_empty() {
@@ -1452,6 +1515,9 @@ pub fn run_batch(ctx: Arc<Ctx>, corpus: Arc<Corpus>, refs: Arc<RefCache>, seed: 
         total.dim_hostname_uid += s.dim_hostname_uid;
         total.dim_cwd_subdir += s.dim_cwd_subdir;
         total.long_processes += s.long_processes;
+        total.fault_requests_issued += s.fault_requests_issued;
+        total.kill_requests_issued += s.kill_requests_issued;
+        total.dim_tty += s.dim_tty;
         total.racy_sessions += s.racy_sessions;
         total.sut_threaded_sessions += s.sut_threaded_sessions;
         total.racy_evidence.extend(s.racy_evidence);
